@@ -357,12 +357,12 @@ func c13Concurrent(env *fw.Env, idx int) fw.Result {
 func init() {
 	perms := &fw.Phase{
 		Name: "all-add-orders",
-		N:    fw.Fixed(300, 5000),
+		N:    fw.Fixed(600, 6000),
 		Run:  c13Permutations,
 	}
 	conc := &fw.Phase{
 		Name: "concurrent-adds-under-race-detector", Race: true, Shards: 16,
-		N:   fw.Fixed(96, 3000),
+		N:   fw.Fixed(160, 3000),
 		Run: c13Concurrent,
 	}
 	fw.Register(&fw.Property{
